@@ -194,8 +194,11 @@ async fn query(data: web::Data<AppState>, req_body: web::Json<QueryRequest>) -> 
     let result = data
         .db
         .run_query(&req_body.query, false, true, vec![])
-        .await
-        .unwrap();
+        .await;
+    let result = match map_err_response(result) {
+        Ok(result) => result,
+        Err(err) => return err,
+    };
 
     let response = json!({
         "colnames": result.colnames,
